@@ -110,7 +110,7 @@ func hasEvent(evs []string, want string) bool {
 }
 
 func runC16(e *Env) {
-	e.Rule = "ALL 256 controller types (128 subsets of {Index, Create, Store, Show, Edit, Update, Delete} x with/without Uses(); Uses() returns a marker middleware for every action incl. unimplemented ones) x base paths {/, /api/, /v1/admin/, /{tenant}/, /{tenant:\\d+}/, /V1/Admin/, /api/v1.0/; inside a group also the empty string, api/, v1/admin/} x inside/outside a Group (single group, nested groups 2+1 middleware, 3 middleware passed to Resource itself: slices with spare capacity), registered on fresh routers several times (every third plain case mounts the same controller type a second time under /second/ on the same router and checks both mounts) (map iteration inside Resource is random), HandleMethodNotAllowed on, cache on/off. Observed: Router.Routes() as (method, path, name) triples, NamedRoutes(), and the answers to 9 methods + 4 method tokens that are not upper case (get, Post, delete, head) x {/res, /res/, /res/create, /res/7, /res/abc-1, /res/create/edit, /res/7/edit, /res/abc-1/edit, /res/7/x, /res/edit, /other, and three of them with trailing non-ASCII white space}: answering action + id, marker middleware seen, 405 + Allow set, 404. Oracle: the documented seven-row table filtered by the subset (+ the C06 resolution order). Resource(base, T{}) and Resource(base, &string) must panic. Non-trivial: every (type, base, group) combination; distinct by it. Every controller instance carries a tag that its actions report (the answering action must belong to the instance given to that Resource call); Uses() maps also contain keys that are no action names (case variants, empty, unknown) whose middleware must never run. Two fifths of the grouped cases call Use() 2..3 times in the group body before mounting the resource (the group's list then has spare capacity). All marker middleware (group, Resource, Uses) are closures of one function literal."
+	e.Rule = "ALL 256 controller types (128 subsets of {Index, Create, Store, Show, Edit, Update, Delete} x with/without Uses(); Uses() returns a marker middleware for every action incl. unimplemented ones) x base paths {/, /api/, /v1/admin/, /{tenant}/, /{tenant:\\d+}/, /V1/Admin/, /api/v1.0/; inside a group also the empty string, api/, v1/admin/} x inside/outside a Group (single group, nested groups 2+1 middleware, 3 middleware passed to Resource itself: slices with spare capacity), registered on fresh routers several times (every third plain case mounts the same controller type a second time under /second/ on the same router and checks both mounts) (map iteration inside Resource is random), HandleMethodNotAllowed on, cache on/off, a seventh with HandleFallbackRoute and Any(\"/*\"). Observed: Router.Routes() as (method, path, name) triples, NamedRoutes(), and the answers to 9 methods + 4 method tokens that are not upper case (get, Post, delete, head) x {/res, /res/, /res/create, /res/7, /res/abc-1, /res/create/edit, /res/7/edit, /res/abc-1/edit, /res/7/x, /res/edit, /other, and three of them with trailing non-ASCII white space}: answering action + id, marker middleware seen, 405 + Allow set, 404. Oracle: the documented seven-row table filtered by the subset (+ the C06 resolution order). Resource(base, T{}) and Resource(base, &string) must panic. Non-trivial: every (type, base, group) combination; distinct by it. Every controller instance carries a tag that its actions report (the answering action must belong to the instance given to that Resource call); Uses() maps also contain keys that are no action names (case variants, empty, unknown) whose middleware must never run. Two fifths of the grouped cases call Use() 2..3 times in the group body before mounting the resource (the group's list then has spare capacity). All marker middleware (group, Resource, Uses) are closures of one function literal."
 	e.Assumptions = []string{
 		"non-strict mode (the documented table is the non-strict one); base paths end in '/' as documented",
 	}
@@ -150,13 +150,17 @@ func runC16(e *Env) {
 					impl = append(impl, a)
 				}
 			}
-			return map[string]any{"controller": ct.Name, "implements": impl, "with_Uses": ct.WithUses, "base": base, "in_group": inGroup, "mounted_again_under_/second/": second, "cache": cacheOn, "Use_calls_in_group_body_before_Resource": useInBody, "middleware_variant(0 none/1 group,1 +3 Resource mw,2 nested groups,3 both)": int(t.Idx/combos+t.Idx) % 4}
+			return map[string]any{"controller": ct.Name, "implements": impl, "with_Uses": ct.WithUses, "base": base, "in_group": inGroup, "mounted_again_under_/second/": second, "cache": cacheOn, "HandleFallbackRoute_and_Any(/*)": t.Idx%7 == 3, "Use_calls_in_group_body_before_Resource": useInBody, "middleware_variant(0 none/1 group,1 +3 Resource mw,2 nested groups,3 both)": int(t.Idx/combos+t.Idx) % 4}
 		})
 		if t.Idx < 2 || t.Idx == 77 {
 			t.wantSample = true
 		}
 		t.NonTrivial(fmt.Sprint(ct.Name, base, inGroup))
 		opts := []func(*rux.Router){rux.HandleMethodNotAllowed}
+		fallbackOn := t.Idx%7 == 3 // HandleFallbackRoute + Any("/*"): whatever the table does not answer (and HEAD->GET does not) goes there
+		if fallbackOn {
+			opts = append(opts, rux.HandleFallbackRoute)
+		}
 		if cacheOn {
 			opts = append(opts, rux.CachingWithNum(3))
 		}
@@ -226,6 +230,10 @@ func runC16(e *Env) {
 			t.Fail("resource-panics", "Resource(%q, &%s{}) panicked: %v", base, ct.Name, pv)
 			return
 		}
+		if fallbackOn {
+			router.Any("/*", func(c *rux.Context) { recOf(c).Ev("fallback-route"); c.WriteString("fallback") })
+			t.Count("resource.with_fallback_route", 1)
+		}
 		resName := strings.ToLower(ct.Name)
 		own, _ := RefNormalize(base+resName, false)
 		full, _ := RefNormalize(prefix+own, false)
@@ -233,6 +241,11 @@ func runC16(e *Env) {
 		wantNames := map[string]bool{}
 		if t.Idx%3 == 1 {
 			wantTriples["GET /adm/x "] = true // the harness's own unrelated route
+		}
+		if fallbackOn {
+			for _, m := range AllMethods {
+				wantTriples[m+" /* "] = true
+			}
 		}
 		mounts := []string{full}
 		if second {
@@ -298,6 +311,10 @@ func runC16(e *Env) {
 
 			// probe matrix
 			cfg := RouterCfg{NotAllowed: true, CacheCap: -1}
+			if fallbackOn {
+				cfg.Fallback, cfg.FallbackMeth = true, AllMethods
+				tb.Routes = append(tb.Routes, &RouteSpec{Name: "fallback", Pat: &Pattern{Segs: []Seg{{Pre: "*"}}}, Methods: AllMethods})
+			}
 			full = strings.ReplaceAll(full, "{tenant}", "acme") // the request spelling
 			full = strings.ReplaceAll(full, `{tenant:\d+}`, "42")
 			paths := []string{full, full + "/", full + "/create", full + "/7", full + "/create/edit", full + "/7/edit", full + "/7/x", "/other", full + "/edit", full + "/abc-1", full + "/abc-1/edit", full + "/create\u00a0", full + "\u3000", full + "/7/edit\u0085"}
@@ -360,6 +377,12 @@ func runC16(e *Env) {
 							return
 						}
 						t.Count("resource.answered_by_action", 1)
+					case "fallback":
+						if rec.Route != "" || rec.Status() != 200 || rec.Body.String() != "fallback" {
+							t.Fail("wrong-action", "%s{%s} base %q with HandleFallbackRoute and Any(\"/*\"): %s %s matches nothing in the documented table and must go to the fallback route; observed action %q status %d body %q", ct.Name, maskDesc(ct.Mask), base, method, path, rec.Route, rec.Status(), rec.Body.String())
+							return
+						}
+						t.Count("resource.answered_by_fallback_route", 1)
 					case "not-allowed":
 						wantStatus := 405
 						if method == "OPTIONS" {
